@@ -119,15 +119,18 @@ fn build_specification(guard: &StringGuard) -> Result<Option<Specification>, syn
             let has_trim = relevant_sanitizers
                 .iter()
                 .any(|s| matches!(s, RelevantSanitizer::Trim));
+            // `not_empty` and `len_char_min` can be combined, the strictest of them defines
+            // the minimal length.
             let min_len = relevant_validators
                 .iter()
-                .find_map(|v| {
+                .filter_map(|v| {
                     if let RelevantValidator::LenCharMin(value) = v {
                         Some(value.clone())
                     } else {
                         None
                     }
                 })
+                .reduce(max_len)
                 .unwrap_or_else(|| ValueOrExpr::Value(0));
             let max_len = relevant_validators
                 .iter()
@@ -146,6 +149,17 @@ fn build_specification(guard: &StringGuard) -> Result<Option<Specification>, syn
                 max_len,
             };
             Ok(Some(spec))
+        }
+    }
+}
+
+fn max_len(a: ValueOrExpr<usize>, b: ValueOrExpr<usize>) -> ValueOrExpr<usize> {
+    match (a, b) {
+        (ValueOrExpr::Value(a), ValueOrExpr::Value(b)) => ValueOrExpr::Value(a.max(b)),
+        (a, b) => {
+            let expr = syn::parse2(quote!(::core::cmp::max(#a, #b)))
+                .expect("Failed to parse token stream in max_len");
+            ValueOrExpr::Expr(expr)
         }
     }
 }
